@@ -25,7 +25,7 @@ RULE = (
     "slices are consecutive, disjoint, each <= chunksize rows, their union is [0,n) exactly once; passes == 1, or 2 "
     "iff centres are generated; no request covers more than chunksize rows when n > chunksize; Parquet: row groups "
     "in order, none twice per pass, buffered rows < chunksize + largest row group. Non-trivial: n > chunksize "
-    "(more than one chunk). Generated centres also with a probe (20) smaller than the input (23, 25, 30 rows); the frame proxy exposes .index and logs whole-frame operations (reset_index, copy, ...). Frame source also on the virtual pool with W=2,3 (chunk sizes that are no multiple of W). Reader objects (frame, HDF5, FITS, Parquet) reused over passes: every history of <= 2 (3) of {peek, loop left after 2 chunks, full pass, probe} must be followed by a complete pass. Frame source without a chunk size (module default lowered to 4; n = 9, 13): requests stay within the default. Distinct: the case tuple."
+    "(more than one chunk). Generated centres also with a probe (20) smaller than the input (23, 25, 30 rows); the frame proxy exposes .index and logs whole-frame operations (reset_index, copy, ...). Frame source also on the virtual pool with W=2,3 (chunk sizes that are no multiple of W). Reader objects (frame, HDF5, FITS, Parquet) reused over passes: every history of <= 2 (3) of {peek, loop left after 2 chunks, full pass, probe} must be followed by a complete pass. Frame source without a chunk size (module default lowered to 4; n = 9, 13): requests stay within the default. Two readers of two sources alive side by side: every interleaving of their chunk requests, each delivers a pass over its own source. A redshift column next to the others (same passes). Distinct: the case tuple."
 )
 ASSUMPTIONS = [
     "requests are observed at the library's seam to the source object (slicing of the frame / dataset / FITS column, "
@@ -57,6 +57,11 @@ def cases(tier, seed):
     # (probe sizes below 10 * patch_num are replaced by the default, which exceeds these inputs)
     for n, cs, src in itertools.product((23, 25, 30), (2, 3), ("frame", "hdf", "fits", "pq2")):
         out.append(dict(n=n, chunksize=cs, source=src, mode="create", probe_size=20))
+        if cs == 3 or n == 23:
+            out.append(dict(n=n, chunksize=cs, source=src, mode="create", probe_size=20, with_z=True))
+    # a redshift column next to the other ones (one more column per request, the same passes)
+    for n, cs, src, mode in itertools.product((5, 9), (2, 3), ("frame", "hdf", "fits", "pq2"), ("create", "centres", "ids")):
+        out.append(dict(n=n, chunksize=cs, source=src, mode=mode, with_z=True))
     # no chunk size given: the default applies (lowered to 4 for these cases)
     for n, mode in itertools.product((9, 13), ("centres", "ids", "create")):
         out.append(dict(n=n, chunksize=None, default_chunksize=4, source="frame", mode=mode))
@@ -69,6 +74,12 @@ def cases(tier, seed):
         for hl in range(0, 3 if tier == "quick" else 4):
             for hist in itertools.product(ops, repeat=hl):
                 out.append(dict(part="reader", source=src, n=n, chunksize=cs, hist=list(hist)))
+    # two readers of two sources alive at the same time: every interleaving of their chunk requests
+    for src, (na, nb, cs) in itertools.product(("frame", "hdf", "fits", "pq2", "pqu"), ((5, 4, 2), (7, 5, 3))):
+        steps_a, steps_b = -(-na // cs), -(-nb // cs)
+        for pos in itertools.combinations(range(steps_a + steps_b), steps_a):
+            out.append(dict(part="reader2", source=src, na=na, nb=nb, chunksize=cs,
+                            order="".join("a" if i in pos else "b" for i in range(steps_a + steps_b))))
     return out
 
 
@@ -85,7 +96,7 @@ CENTRES = np.array([[10.0, 0.0], [30.0, 0.0]])
 def columns(n):
     i = np.arange(n)
     return dict(ra=10.0 + 20.0 * (i % 2) + 0.5 * (i // 2), dec=0.25 * (i // 2), w=1.0 + i / 16.0,
-                pid=(i % 2).astype("i8"))
+                pid=(i % 2).astype("i8"), z=0.1 + i / 64.0)
 
 
 class Log(list):
@@ -273,9 +284,67 @@ def run_reader(case):
     return res
 
 
+def run_reader2(case):
+    import pandas as pd
+    from yaw.catalog import readers as R
+
+    cs, src = case["chunksize"], case["source"]
+    kw = dict(ra_name="ra", dec_name="dec", weight_name="w", patch_name="pid", chunksize=cs)
+    d = runner.fresh_dir("c18t")
+    data, paths = {}, {}
+    for name, n in (("a", case["na"]), ("b", case["nb"])):
+        cols = columns(n)
+        if name == "b":
+            cols["ra"] = cols["ra"] + 100.0  # other records than those of source a
+        data[name] = cols
+        os.makedirs(os.path.join(d, name))
+        paths[name] = None if src == "frame" else write_file(src, cols, os.path.join(d, name), n)
+
+    def new(name):
+        if src == "frame":
+            return R.DataFrameReader(pd.DataFrame(data[name]), **kw)
+        return R.new_filereader(paths[name], **kw)
+
+    v = []
+    try:
+        want = {}
+        for name in "ab":
+            with new(name) as r:
+                want[name] = np.concatenate([np.asarray(c) for c in r])
+        with new("a") as ra_, new("b") as rb_:
+            its, got = {}, dict(a=[], b=[])
+            for name in case["order"]:
+                if name not in its:
+                    its[name] = iter(dict(a=ra_, b=rb_)[name])
+                got[name].append(np.asarray(next(its[name])))
+            ended = {}
+            for name in "ab":
+                try:
+                    next(its[name])
+                    ended[name] = False
+                except StopIteration:
+                    ended[name] = True
+    except Exception as e:
+        return dict(nontrivial=True, key=case, status="violation", violations=[dict(
+            signature=f"C18/reader2/exception:{type(e).__name__}", what=f"two readers side by side raised {yawx.exc_name(e)} ({case})")])
+    tag = "parquet" if src.startswith("pq") else src
+    for name in "ab":
+        g = np.concatenate(got[name])
+        if not ended[name] or len(g) != len(want[name]) or not np.array_equal(g, want[name]):
+            v.append(dict(signature=f"C18/reader2/{tag}/interleaved-pass",
+                          what=f"two readers used side by side (chunk order {case['order']}): reader {name} delivers {len(g)} records "
+                               f"(own source: {len(want[name])}) that are not the records of a pass over its own source"))
+    res = dict(nontrivial=True, key=case)
+    if v:
+        res.update(status="violation", violations=v[:1])
+    return res
+
+
 def run_case(case):
     if case.get("part") == "reader":
         return run_reader(case)
+    if case.get("part") == "reader2":
+        return run_reader2(case)
     import pandas as pd
     from yaw import AngularCoordinates, Catalog
     from yaw.catalog import catalog as C
@@ -293,11 +362,14 @@ def run_case(case):
     log = Log()
     kw = dict(ra_name="ra", dec_name="dec", weight_name="w", chunksize=cs)
     ncols = 3
+    if case.get("with_z"):
+        kw["redshift_name"] = "z"
+        ncols = 4
     if mode.startswith("centres"):
         kw["patch_centers"] = AngularCoordinates(np.deg2rad(CENTRES[: min(2, n)]))
     if mode.startswith("ids"):
         kw["patch_name"] = "pid"
-        ncols = 4
+        ncols += 1
     if mode == "create" or mode.endswith("+num"):
         kw.update(patch_num=2, probe_size=case.get("probe_size", 20))
     expect_passes = 2 if mode == "create" else 1
